@@ -775,6 +775,52 @@ def K20_mub_record(rep, flow: Flow, T, fqs=("mub_circuits.get_mubs", "mub_circui
                 rep.ok("K20", 1, nontrivial=(fq, tf.name), sample=f"{f.qualname}({tf.n}, {tf.conn!r}): {len(have)} {what}, all equal to the lines of {tf.name}")
 
 
+def K21_stabilizer_accessor(rep, flow: Flow, T, files=None, fq="circuit_lookup.stabilizer_circuit_lookup"):
+    """whole domain of the stabilizer accessor: for every advertised (num_qubits, connectivity) and every class id, the
+    record it hands out carries the graph id / cost / depth of line `id` of that configuration's file and its
+    parse_circuit() yields the gates that line's tokens name (independent parse of the same text)"""
+    from .consteval import CE, CERaise, Recorder, Instance
+    files = files if files is not None else T.adv_stab
+    rep.rule("K21", "for every advertised configuration and every class id the stabilizer accessor returns the entry of line `id` of that configuration's file: graph id, cost, depth as written and a circuit with exactly the gates its tokens name (accessor and parser evaluated on the shipped files, compared with an independent parse)", floor=sum(len(tf.lines) for tf in files), exhaustive=True)
+    f = flow.prog.func(fq)
+    sym = {"cz", "swap"}
+
+    def norm(log):
+        return [(e[0],) + (tuple(sorted(e[1:])) if e[0] in sym else tuple(e[1:])) for e in log]
+    ce = CE(flow.prog, max_steps=2_000_000_000)      # one evaluator: the module-level cache is filled once per file, as in the library
+    for tf in files:
+        for L in tf.lines:
+            if L.problems:
+                continue
+            try:
+                rec = ce.call_func(f, [tf.n, tf.conn, L.index], {})
+            except CERaise as ex:
+                rep.finding("K21", f"{tf.name}:{L.index}:raise", f"{ex.where or f.module.rel}: {f.qualname}({tf.n}, {tf.conn!r}, {L.index}) raises {ex.etype} ({ex.msg[:80]})")
+                break
+            if not isinstance(rec, Instance):
+                raise AnalysisError(f"{fq} returns {type(rec).__name__}, not a record")
+            got = {k: rec.attrs.get(k) for k in ("graph_id", "cost", "depth")}
+            want = {"graph_id": L.graph_id, "cost": L.cost, "depth": L.depth}
+            if got != want:
+                rep.finding("K21", f"{tf.name}:{L.index}:fields", f"{f.module.rel} {f.qualname}({tf.n}, {tf.conn!r}, {L.index}): record holds {got}; {L.where()} says {want}")
+                break
+            pm = flow.prog.find_method(rec.cls, "parse_circuit")
+            if pm is None:
+                raise AnalysisError(f"{rec.cls.name}.parse_circuit vanished")
+            try:
+                qc = ce.call_func(pm, [rec], {})
+            except CERaise as ex:
+                rep.finding("K21", f"{tf.name}:{L.index}:parse-raise", f"{ex.where or f.module.rel}: parse_circuit() of the entry {L.where()} raises {ex.etype} ({ex.msg[:80]})")
+                break
+            if not isinstance(qc, Recorder):
+                raise AnalysisError(f"{rec.cls.name}.parse_circuit returns {type(qc).__name__}, not a circuit")
+            wantc = norm([(op.name,) + tuple(op.qubits) for op in L.ops])
+            if norm(qc.log) != wantc or qc.width != tf.n:
+                rep.finding("K21", f"{tf.name}:{L.index}:circuit", f"{f.module.rel} {f.qualname}({tf.n}, {tf.conn!r}, {L.index}).parse_circuit(): {qc.width}-qubit circuit {str(norm(qc.log))[:160]}; the tokens of {L.where()} name {str(wantc)[:160]} on {tf.n} qubits")
+                break
+            rep.ok("K21", 1, nontrivial=(tf.name, L.index))
+
+
 def key_leaves_of(k, r=None):
     """parameters mentioned by a symbolic key, looking through the heap objects it refers to"""
     out = set()
